@@ -94,6 +94,40 @@ pub fn conc_strategy(max_threads: usize, max_ops: usize) -> BoxedStrategy<ConcCa
         .boxed()
 }
 
+/// One topic whose writer sits a few hundred bytes before the end of its block with unread
+/// entries in it, readers polling it and a producer whose first appends do not fit: the block is
+/// sealed and a new one started while a reader is between its steps.
+pub fn rotation_strategy() -> BoxedStrategy<ConcCase> {
+    let small = prop_oneof![3 => (0u16..40).prop_map(Size::Tiny), 1 => (40u16..400).prop_map(Size::Tiny)];
+    let reader = prop_oneof![
+        5 => Just(TOp::ReadNext { t: 0 }),
+        2 => prop_oneof![Just(CBudget::Zero), (0u16..2000).prop_map(CBudget::Bytes), Just(CBudget::Max)].prop_map(|budget| TOp::BatchRead { t: 0, budget }),
+    ];
+    let producer = prop_oneof![
+        4 => (100u16..700).prop_map(|len| TOp::Append { t: 0, len }),
+        1 => proptest::collection::vec(60u16..300, 2..=4).prop_map(|lens| TOp::Batch { t: 0, lens }),
+    ];
+    (
+        cfg_strategy(1, mode_strategy()),
+        proptest::collection::vec(small.prop_map(|size| AbsOp::Append { t: 0, size }), 1..4),
+        0u16..500,
+        proptest::collection::vec(reader.clone(), 2..6),
+        proptest::collection::vec(producer, 1..4),
+        proptest::option::weighted(0.4, proptest::collection::vec(reader, 1..4)),
+        proptest::collection::vec((0u8..4, 1u8..5), 4..60),
+        drain_strategy(),
+    )
+        .prop_map(|(mut cfg, pre, room, r1, p, r2, sched, drain)| {
+            cfg.topics.truncate(1);
+            let mut threads = vec![r1, p];
+            if let Some(r2) = r2 {
+                threads.push(r2);
+            }
+            ConcCase { cfg, pre, room: vec![Some(room)], threads, sched, producers_only: false, drain }
+        })
+        .boxed()
+}
+
 #[derive(Clone, Debug)]
 struct Appended {
     id: EntId,
@@ -633,11 +667,15 @@ pub fn replay(body: &Value) -> Result<Option<String>, String> {
 }
 
 pub fn conc_search(ctx: &Ctx, name: &str, cases: usize, max_threads: usize, max_ops: usize, count_only: bool) {
+    conc_search_with(ctx, name, cases, move || conc_strategy(max_threads, max_ops), count_only)
+}
+
+pub fn conc_search_with(ctx: &Ctx, name: &str, cases: usize, strategy: impl Fn() -> BoxedStrategy<ConcCase> + Sync + Send + 'static, count_only: bool) {
     let prop = ctx.prop.clone();
     let excl = exclusions_for(&ctx.prop);
     let s = Search {
         name: name.to_string(),
-        strategy: Box::new(move || conc_strategy(max_threads, max_ops)),
+        strategy: Box::new(strategy),
         run: Box::new(move |case: &ConcCase| {
             let schedule = expand_sched(&case.sched);
             let o = run_conc(case, &schedule, &excl);
@@ -655,6 +693,29 @@ pub fn conc_search(ctx: &Ctx, name: &str, cases: usize, max_threads: usize, max_
 /// starts with either thread and switches threads at most `max_switches` times, at every
 /// combination of yield-point positions.
 pub fn conc_exhaustive(ctx: &Ctx, name: &str, programs: usize, max_switches: usize, max_runs_per_program: usize) {
+    conc_exhaustive_with(ctx, name, programs, max_switches, max_runs_per_program, conc_strategy(2, 3), false)
+}
+
+/// two threads (one read, one append that does not fit into the writer's block) on one topic with
+/// unread entries: small enough for every schedule with at most two switches to be run
+pub fn rotation_pair_strategy() -> BoxedStrategy<ConcCase> {
+    (rotation_strategy(), any::<bool>())
+        .prop_map(|(mut c, batch_read)| {
+            c.threads.truncate(2);
+            c.threads[0].truncate(1);
+            if batch_read {
+                c.threads[0] = vec![TOp::BatchRead { t: 0, budget: CBudget::Max }];
+            } else {
+                c.threads[0] = vec![TOp::ReadNext { t: 0 }];
+            }
+            c.threads[1].truncate(1);
+            c.pre.truncate(2);
+            c
+        })
+        .boxed()
+}
+
+pub fn conc_exhaustive_with(ctx: &Ctx, name: &str, programs: usize, max_switches: usize, max_runs_per_program: usize, strat: BoxedStrategy<ConcCase>, keep_room: bool) {
     let prop = ctx.prop.clone();
     let excl = exclusions_for(&ctx.prop);
     let t0 = std::time::Instant::now();
@@ -662,7 +723,6 @@ pub fn conc_exhaustive(ctx: &Ctx, name: &str, programs: usize, max_switches: usi
         proptest::test_runner::Config { failure_persistence: None, ..Default::default() },
         rng_for(ctx.seed, &ctx.prop, name, 0),
     );
-    let strat = conc_strategy(2, 3);
     let mut cases: Vec<ConcCase> = Vec::new();
     while cases.len() < programs {
         let Ok(tree) = strat.new_tree(&mut runner) else { continue };
@@ -670,7 +730,7 @@ pub fn conc_exhaustive(ctx: &Ctx, name: &str, programs: usize, max_switches: usi
         c.producers_only = false;
         c.sched.clear();
         // the 10 MiB block filler dominates the cost of a run: keep it for every fourth program
-        if cases.len() % 4 != 0 {
+        if !keep_room && cases.len() % 4 != 0 {
             c.room = vec![None, None];
         }
         cases.push(c);
@@ -771,6 +831,8 @@ pub fn c05(ctx: &Ctx) {
     let q = ctx.tier == Tier::Quick;
     conc_search(ctx, "random-schedules", if q { 1400 } else { 80_000 }, 4, 10, false);
     conc_exhaustive(ctx, "two-thread-preemption-bounded", if q { 6 } else { 120 }, 2, if q { 220 } else { 6000 });
+    conc_search_with(ctx, "rotation-under-reader", if q { 160 } else { 40_000 }, rotation_strategy, false);
+    conc_exhaustive_with(ctx, "rotation-pair-preemption-bounded", if q { 2 } else { 60 }, 2, if q { 160 } else { 4000 }, rotation_pair_strategy(), true);
     let _ = payload::hash;
 }
 
